@@ -98,14 +98,14 @@ def aba_paths(rng, n):
         ops += [(wr, dict(x=x, p='l', c=1, v=w - 4)), (wr, dict(x=x, p='g', c=1, v=4))]
         ops += [('read', dict(x=x, prop=p)) for p in props]
         if rng.random() < 0.5:
-            ops += [('reset_thermo', dict(x=x, pkg='P2'))] + [('read', dict(x=x, prop=p)) for p in props]
+            ops += [('reset_thermo', dict(x=x, pkg=rng.choice(['P2', 'P3'])))] + [('read', dict(x=x, prop=p)) for p in props]
         out.append([dict(op=o, a=a) for o, a in ops])
     for _ in range(n // 6):
         # property-package change between reads (same chemicals at the same positions, other models)
         x = rng.choice(['a', 'b'])
         props = rng.sample(ds.PROPS, 4)
         ops = [('construct', dict(x=x, k='s', price=0, cf=0)), ('set_flow', dict(x=x, p='l', c=1, v=4)), ('set_flow', dict(x=x, p='l', c=2, v=8))]
-        ops += [('read', dict(x=x, prop=p)) for p in props] + [('reset_thermo', dict(x=x, pkg='P2'))] + [('read', dict(x=x, prop=p)) for p in props]
+        ops += [('read', dict(x=x, prop=p)) for p in props] + [('reset_thermo', dict(x=x, pkg=rng.choice(['P2', 'P3', 'P3'])))] + [('read', dict(x=x, prop=p)) for p in props]
         ops += [('reset_thermo', dict(x=x, pkg='P'))] + [('read', dict(x=x, prop=p)) for p in props]
         out.append([dict(op=o, a=a) for o, a in ops])
     for _ in range(n):
